@@ -50,7 +50,107 @@ def plan(prop, tier, seed):
     if prop in ("C03", "C09"):
         # one LONG program (thorough: hit and access counters pass 2^16) with and without the cache, in both modes
         sh += [{"kind": "longprog", "shard": 0}]
+    if prop in ("C03", "C09", "C10"):
+        # LONG access histories on a bare memory system, judged by a light monitor (values + counters only): hot phases
+        # in which two blocks of a set are used in turn for hundreds / tens of thousands of accesses while the other
+        # resident blocks stay idle, then conflict misses; very large associativities
+        sh += [{"kind": "longhist", "cfgi": i, "shard": i} for i in range(len(LONGHIST))]
     return sh
+
+
+LONGHIST = [
+    # (ib, bb, assoc, policy, wt, pen, accesses quick, accesses thorough, longest hot phase quick / thorough)
+    (0, 0, 4, "lru", False, 1, 72000, 150000, 66500, 66500),
+    (0, 0, 512, "lru", True, 2, 4000, 12000, 300, 600),
+    (0, 0, 300, "lru", False, 1, 3000, 9000, 300, 600),
+    (1, 1, 3, "lru", False, 3, 12000, 150000, 700, 66500),
+    (0, 1, 4, "plru", False, 1, 12000, 100000, 700, 40000),
+    (1, 0, 8, "lru", True, 1, 12000, 100000, 700, 40000),
+    (0, 0, 256, "plru", False, 1, 3000, 9000, 300, 600),
+]
+
+
+def run_longhist(spec, res, prop):
+    """light monitor on a bare memory system: every read value against the flat memory, (hits, accesses, last_hit) and
+    the cycle counter against the reference cache after every access; nothing else is looked at while it runs"""
+    import fixedint
+
+    ib, bb, assoc, policy, wt, pen, nq, nt, hq, ht = LONGHIST[spec["cfgi"]]
+    q = spec["tier"] == "quick"
+    n, hotmax = (nq, hq) if q else (nt, ht)
+    rng = rng_for("cache", spec["tier"], spec["seed"], "longhist", spec["cfgi"])
+    cfg = {"ib": ib, "bb": bb, "assoc": assoc, "policy": policy, "wt": wt, "pen": pen}
+    m, pm = make_system(cfg)
+    ref = RefCache(ib, bb, assoc, policy, wt)
+    flat = FlatMem()
+    bs, nsets = 4 << bb, 1 << ib
+    blocks = {s_: [0x4000 + bs * nsets * k + bs * s_ for k in range(assoc + 3)] for s_ in range(nsets)}
+    case = {"kind": "longhist", "cfgi": spec["cfgi"], "cfg": cfg, "seed": spec["seed"], "tier": spec["tier"]}
+    cyc = 0
+    done = 0
+    first_phase = True
+
+    def access(a, wr, v):
+        nonlocal cyc, done
+        done += 1
+        where = "access #%d %s %#x" % (done, "write" if wr else "read", a)
+        try:
+            if wr:
+                m.write_word(a, fixedint.UInt32(v))
+                flat.write(a, 4, v)
+            else:
+                got = int(m.read_word(a))
+                if got != flat.read(a, 4):
+                    res.violation("C03", "read-mismatch", "long history (%r): %s returned %#x, flat memory holds %#x" % (cfg, where, got, flat.read(a, 4)), case)
+                    return False
+        except Exception as e:
+            res.violation("C03", "access-error", "long history (%r): %s raised %r" % (cfg, where, e), case)
+            return False
+        hit, _ = ref.access(a, wr, counted=True)
+        if not hit:
+            cyc += pen
+        st = m.get_cache_stats()
+        got = (int(st["hits"]), int(st["accesses"]), bool(st["last_hit"]))
+        want = (ref.hits, ref.accesses, bool(ref.last_hit))
+        res.count("long_history_counter_checks")
+        if got != want or pm.cycles != cyc:
+            res.violation("C09", "counter-mismatch", "long history (%r): %s: (hits, accesses, last_hit) real=%r reference=%r, cycle counter %d reference %d" % (cfg, where, got, want, pm.cycles, cyc), case)
+            return False
+        return True
+
+    while done < n:
+        s_ = rng.randrange(nsets)
+        bl = blocks[s_]
+        # warm the set: touch a random number of distinct blocks (some ways may stay empty)
+        for b in rng.sample(bl, rng.randint(2, min(len(bl), assoc))):
+            if not access(b, rng.random() < 0.3, rng.getrandbits(32)):
+                return
+        # hot phase: a few blocks used in turn, the rest of the set idle
+        hot = rng.sample(bl, rng.choice([1, 2, 2, 2, 3]))
+        L = hotmax if first_phase else rng.choice([3, 17, 130, 255, 256, 257, 300, 515, min(hotmax, 1030)])
+        first_phase = False
+        for i in range(min(L, n - done + 8)):
+            b = hot[i % len(hot)] if rng.random() < 0.9 else rng.choice(hot)
+            if not access(b, rng.random() < 0.25, i):
+                return
+        res.count("long_history_hot_phases")
+        # conflict misses, then every block of the set once more (a wrong victim shows as a miss / a stale value)
+        for b in rng.sample(bl, rng.randint(1, 3)) + rng.sample(bl, len(bl) if len(bl) <= 12 else 12):
+            if not access(b, False, 0):
+                return
+        if assoc > 256:
+            # large associativity: hits on high way numbers, then enough misses to push stale entries to the front
+            for b in bl[:assoc]:
+                if not access(b, False, 0):
+                    return
+            for b in rng.sample(bl[:assoc], 40) + bl[assoc:] + rng.sample(bl[:assoc], 60):
+                if not access(b, False, 0):
+                    return
+    res.count("long_histories")
+    res.evaluations += 1
+    res.count("hits", ref.hits)
+    res.count("misses", ref.accesses - ref.hits)
+    res.nontrivial(h64(case))
 
 
 def rand_cfg(rng, small=False):
@@ -135,6 +235,13 @@ def gen_history(rng, nops, acct):
             lastany[0] = v
         if ops and rng.random() < 0.04:
             op, a, w, v = ops[-1]  # exact repeat of the previous operation
+        elif op in ("r", "w") and rng.random() < 0.03:
+            # the same set reached through an address BELOW the data range (a null-ish pointer): the lower memory rejects
+            # the access; no block was accessed, so values, residency and the replacement order stay what they were
+            op += "l"
+            a = (a & (bs * nsets - 1) & ~3) + bs * nsets * rng.randrange(1, max(2, 0x3000 // (bs * nsets)))
+            if w < 4:
+                a += rng.randrange(0, 5 - w, w)
         ops.append([op, a, w, v])
     if preload and rng.random() < 0.12:
         # a memory that was only LOOKED at (uncounted reads: print-string ecall, visualisation) and is then reset
@@ -411,6 +518,34 @@ class HistMonitor:
             if self.acct:
                 self.counters(where)
             return
+        if op in ("rl", "wl"):
+            try:
+                if op == "rl":
+                    got = RD[w](a, True)
+                else:
+                    f, T = WR[w]
+                    got = f(a, T(v))
+            except self.MAE:
+                res.count("below_range_rejected")
+                if self.acct:
+                    # counters after a rejected access are not claimed either way: re-synchronise
+                    st = m.get_cache_stats()
+                    self.ref.hits, self.ref.accesses, self.ref.last_hit = int(st["hits"]), int(st["accesses"]), st["last_hit"]
+                    self.cyc = self.pm.cycles
+                if self.pols is not None:
+                    self.policy_events(where + " (rejected by the lower memory)", a)
+                    self._events_done = True
+                if not self.acct:
+                    self.readback(where + " (rejected by the lower memory)")
+                if not self.dead:
+                    self.invariant(where + " (rejected by the lower memory)")
+                return
+            except Exception as e:
+                self.fail("C03", "access-error", "%s (below the data range) raised %r, an uncached memory raises MemoryAddressError" % (where, e), addr=a & M32)
+                return
+            self.fail("C03", "below-range-accepted", "%s lies below the data range but was accepted (returned %r); an uncached memory rejects it" % (where, got))
+            self.dead = True
+            return
         try:
             if op in ("r", "ru"):
                 counted = op == "r"
@@ -676,6 +811,15 @@ def blind_replay(case, mon, res):
                 f(a, T(v), True)
             elif op == "reset":
                 m2.reset()
+            elif op in ("rl", "wl"):
+                try:
+                    if op == "rl":
+                        RD[w](a)
+                    else:
+                        f, T = WR[w]
+                        f(a, T(v))
+                except mon.MAE:
+                    pass
     except Exception as e:
         mon.fail("C03", "unobserved-run-differs", "the same history raises %r when the cache is not inspected between the operations" % (e,), fatal=False)
         return True
@@ -1188,6 +1332,8 @@ def run_simpolicy_case(case, res):
 
 
 def run_case(prop, case, res):
+    if case.get("kind") == "longhist":
+        return run_longhist({"cfgi": case["cfgi"], "tier": case["tier"], "seed": case["seed"]}, res, prop)
     if case["kind"] == "simpolicy":
         run_simpolicy_case(case, res)
         return
@@ -1211,6 +1357,9 @@ def run_shard(spec, res):
         return
     if spec["kind"] == "bfs":
         run_bfs(spec, res, prop)
+        return
+    if spec["kind"] == "longhist":
+        guarded(run_case, prop, {"kind": "longhist", "cfgi": spec["cfgi"], "tier": spec["tier"], "seed": spec["seed"]}, res)
         return
     if spec["kind"] == "longprog":
         c = pipe.long_case(True, 2500 if spec["tier"] == "quick" else 9000)
